@@ -6,6 +6,7 @@ import (
 	"fmt"
 	"io"
 	"log/slog"
+	"math"
 	"net"
 	"strings"
 
@@ -517,17 +518,24 @@ func (srv *Session) readParameters(ctx context.Context, reader *buffer.Reader) (
 			return nil, err
 		}
 
+		format := defaultFormat
+		if len(formats) > int(i) {
+			format = formats[i]
+		}
+
+		// NOTE: as a special case, -1 indicates a NULL parameter value. No
+		// value bytes follow in the NULL case.
+		if length == math.MaxUint32 {
+			parameters[i] = NewParameter(TypeMap(ctx), format, nil)
+			continue
+		}
+
 		value, err := reader.GetBytes(int(length))
 		if err != nil {
 			return nil, err
 		}
 
 		srv.logger.Debug("incoming parameter", slog.String("value", string(value)))
-
-		format := defaultFormat
-		if len(formats) > int(i) {
-			format = formats[i]
-		}
 
 		parameters[i] = NewParameter(TypeMap(ctx), format, value)
 	}
